@@ -460,12 +460,15 @@ func c18GenMux(r *hysim.Rand, tier string, race bool) *hysim.Script {
 		nops = r.Range(4, 80)
 	}
 	slow := r.Pick64(0, 0, 0, 100, 20000)
+	if churn == 2 {
+		slow = r.Pick64(0, 100, 20000, 20000)
+	}
 	if r.Bool() {
 		sc.Ops = append(sc.Ops, hysim.Op{K: "listen", A: []int64{c18Socks, slow}}, hysim.Op{K: "listen", A: []int64{c18HTTP, r.Pick64(0, 0, slow)}})
 	} else {
 		sc.Ops = append(sc.Ops, hysim.Op{K: "listen", A: []int64{c18HTTP, slow}}, hysim.Op{K: "listen", A: []int64{c18Socks, r.Pick64(0, 0, slow)}})
 	}
-	if churn > 0 && r.Chance(1, 3) {
+	if r.Chance(1, 3) {
 		// only one protocol bound at first
 		sc.Ops = sc.Ops[:1]
 	}
@@ -484,7 +487,11 @@ func c18GenMux(r *hysim.Rand, tier string, race bool) *hysim.Script {
 				sc.Ops = append(sc.Ops, c18GenConn(r))
 				continue
 			}
-			switch q := r.Intn(10); {
+			q := r.Intn(10)
+			if churn == 2 && q < 8 && r.Chance(1, 3) {
+				q = 9
+			}
+			switch {
 			case q < 4:
 				sc.Ops = append(sc.Ops, hysim.Op{K: "close", A: []int64{int64(r.Intn(2))}})
 			case q < 8:
@@ -607,7 +614,12 @@ func c18ExecMux(x *hysim.Run) {
 			if len(mc.sent) > 0 {
 				fb = fmt.Sprintf("first byte 0x%02x, %d of %d bytes consumed by the mux", mc.sent[0], mc.srv.BytesRead(), len(mc.sent))
 			}
-			x.Violate("mux-conn-lost", "conn%d (%s) was taken from the base listener of mux%d but never handed to a sub-listener and never closed (listener registrations at push: socks#%d http#%d; base failure injected: %v)", mc.id, fb, mc.mux.gen, mc.regAt[c18Socks], mc.regAt[c18HTTP], mc.mux.failed)
+			// two places can drop a connection: acceptLoop (nothing read yet) and dispatch (detection byte read)
+			class, where := "mux-conn-lost", "after its detection byte was read"
+			if mc.srv.BytesRead() == 0 {
+				class, where = "mux-conn-lost-in-accept", "before anything was read from it"
+			}
+			x.Violate(class, "conn%d (%s) was taken from the base listener of mux%d and dropped %s: never handed to a sub-listener, never closed (listener registrations at push: socks#%d http#%d; base failure injected: %v)", mc.id, fb, mc.mux.gen, where, mc.regAt[c18Socks], mc.regAt[c18HTTP], mc.mux.failed)
 		} else {
 			x.Probe("conn-closed-by-mux")
 		}
